@@ -21,14 +21,14 @@ DONE={
  "C05":("runtime monitoring: recorded sender/receiver call histories judged by a content-equality oracle and a tamper oracle (independent spec MIC over the received bytes with the receiver's parameters), incl. a receiver re-using its PHYPayload value",
         "held on the executions observed (thorough: every bit of every generated frame is flipped); known finding: MHDR RFU bits",
         "trusted: crypto/aes, harness CMAC/keystream; key usage per LoRaWAN 1.1"),
- "C10":("runtime monitoring + Go race detector: aliasing/guard-byte/stale-state memory-effect monitors on every decoder type, band-instance isolation histories, and a -race workload whose registry operations are recorded and checked for linearizability with porcupine",
+ "C10":("runtime monitoring + Go race detector: aliasing / input-unchanged / guard-byte / stale-state / kept-copy / independent-values (reflection scribble) memory-effect monitors on every decoder type, band-instance isolation histories, and a -race workload (shared input buffers, template copies, private crypto judged by models) whose registry operations are recorded and checked for linearizability with porcupine",
         "held on the executions observed: guard sweep complete for lengths 0..64 x alignments 0..15; concurrent part reports the histories, overlapping operation pairs and race-detector runs actually observed (not all interleavings)",
         "trusted: Go race detector (reports only races that occur in the observed executions), porcupine v1.3.0"),
  "C08":("runtime monitoring: canonicality oracle (decode accepted => re-encode succeeds and is byte-identical => re-decode equal) over uniform, structure-aware mutated and guard-boundary byte strings; per-MType acceptance thresholds",
         "held on the executions observed (>= 300 accepted inputs per MType or the run is inconclusive)",
         "trusted: none beyond the harness generators; frames with MHDR RFU bits set are outside the property"),
- "C09":("runtime monitoring: every decoder entry point called under recover() on hostile inputs with canary-guarded input buffers, per-case hang watchdog with single-case confirmation, memory blow-up guard",
-        "held on the executions observed for 156 entry points; 'linear time' is restated as bounded progress",
+ "C09":("runtime monitoring: every decoder entry point called under recover() on hostile inputs (canary-guarded buffers, half of them with capacity == length; complete grid of short inputs), decode while registrations happen, per-case hang watchdog with single-case confirmation, memory blow-up guard, allocation/time scaling monitor (4 KiB vs 128 KiB per entry point)",
+        "held on the executions observed for 156 entry points; 'linear time' is observed as bounded progress plus allocation and fastest-of-three time ratios for 32x larger inputs",
         "trusted: Go runtime panics/recover semantics; a fatal (unrecoverable) error is attributed through the progress marker"),
  "C06":("runtime monitoring: table-driven reference model of every wire layout compared with the real Marshal/Unmarshal in both directions; complete byte-string sweeps for <= 2-byte payloads, MHDR, FCtrl, DLSettings and the (direction, CID) registry; decode-edit-re-encode sequences",
         "held on the executions observed; payloads of <= 2 bytes, the 256-value header bytes and the registry are enumerated completely, longer payloads by boundary patterns + seeded random strings",
@@ -57,7 +57,7 @@ DONE={
  "C20":("runtime monitoring: independent leap-second table, exact-rational AN1200.13 model and own EIRP table compared with every call; dense boundary neighbourhoods; thorough tier sweeps the complete airtime grid and every float32 >= 8",
         "held on the executions observed; the airtime grid and the float32 domain are enumerated completely in the thorough tier",
         "trusted: IERS leap-second dates, AN1200.13 formula, TXParamSetup EIRP table"),
- "C01":("runtime monitoring: round-trip (inverse) oracle over seeded structure-aware and boundary-enumerated executions of the real encoder/decoder",
+ "C01":("runtime monitoring: round-trip (inverse) oracle plus comparison with the spec model's own serialisation / join-accept ciphertext, over seeded structure-aware and boundary-enumerated executions of the real encoder/decoder (fresh values, values edited after a decode or after a refused encode)",
         "held on the executions observed: the real Marshal*/Unmarshal* are run on a large seeded, structure-aware workload plus the complete header-length boundary grid and each execution is judged field by field",
         "trusted: Go standard library, the harness generators; paths the workload does not drive are not covered"),
  "C02":("runtime monitoring: reference-model monitor (own RFC 4493 CMAC + spec B0/B1 + own serialisation) next to every Set/Validate call, with single-input perturbation rounds",
